@@ -362,8 +362,17 @@ chk("C24", "model_checking",
 
 # extensions made after the first registration (appended to the level text)
 EXTRA = {
-    "C02": " A strided sample of the deterministic families of C04 / C05 / C07 (scope skeletons as function bodies, loop nests, "
-           "return in operand positions) is included; ill-formed variants also place the return inside a filter written in a "
+    "C01": " Scanner level: spec/Scanner.tla is the scanner over character classes as a state machine; TLC checks IndexInBounds, "
+           "Progress, Bounded (at most one token per character) and LineOK for every class string up to length 3 (thorough 4), "
+           "and spec/ScanGen.tla writes the token kinds it prescribes for each; the real scanner's token stream on a concrete "
+           "text of every shape is compared with them (30 784 shapes, drift reported in evidence: 0 on the current tree). Bracket "
+           "nests also come as one kind of bracket 16 / 40 / 64 deep around texts that refer to builtins and globals (name "
+           "resolution through every enclosing scope must stay bounded). A hang is confirmed by running the text alone with a "
+           "long deadline; after 12 confirmed hangs the rest of a family is skipped (the verdict is settled).",
+    "C02": " A strided sample of the deterministic families of C04 / C05 / C07 (scope skeletons as function bodies - all of "
+           "those with a function inside a block -, loop nests, return in operand positions) and an alias matrix (11 ways of "
+           "obtaining an array from existing ones x 5 ways of changing the result, maps through variables / containers / calls; "
+           "all originals observed) are included; ill-formed variants also place the return inside a filter written in a "
            "function or closure. A part of the programs is also replayed instruction by instruction: the real VM in lock step "
            "with the machine specification spec/VM.tla on the code the real compiler emitted, and the machine's outcome on that "
            "code against RefSem on the source (spec/VMRun.tla) - a per-program translation validation of the compiler inside TLC.",
@@ -372,28 +381,47 @@ EXTRA = {
            "map value, loop-body assignment, closure body) in both renderings, which must behave alike; a strided part is "
            "validated against RefSem.",
     "C04": " Every skeleton is generated at top level (bindings are globals) and as the body of a function (bindings are locals "
-           "of an activation, inner functions are closures; x unbound outside / global / parameter); a use reads the name twice.",
+           "of an activation, inner functions are closures; x unbound outside / global / parameter); a use reads the name twice. "
+           "A further family fixes what a function's own name denotes: recursion through closures nested one and two deep, a "
+           "returned closure calling its maker, parameters / locals / inner functions of the same name, for fn statements and "
+           "let-bound literals.",
     "C05": " Pattern tables include alternations mixing ranges and literals (a range that is not the last alternative, two "
            "ranges, a reversed range then a literal); if-chains draw on a falsey and a truthy representative of every kind of "
-           "the documented truthiness table (all chains of length 1-2, sampled beyond).",
+           "the documented truthiness table (all chains of length 1-2, sampled beyond); loop nests also come with one label on "
+           "every level (a labelled break / continue names the nearest enclosing loop so labelled); if / match with 9 kinds of "
+           "branch bodies (value, let, empty, statements, assignment, nested if, observation only, nested block) in 5 value "
+           "positions (array element, call argument, operand, let initialiser, map value).",
+    "C06": " Values of kinds the table does not list (error object, builtin function, closure, named function, file handle) in "
+           "every position; every && / || expression over 17 atoms printed at top level and inside a filter action of the same "
+           "run (578 expressions) must print alike.",
     "C07": " Further families: every block-carrying construct in statement position x every kind of last statement of its block "
-           "(13 x 10, at top level and inside a function). The same executions are replayed in lock step against the machine "
-           "specification spec/VM.tla by spec/VMRun.tla (one TLC state per executed instruction): a stack height that differs "
-           "from what the instruction's meaning gives is reported with the instruction after which it arose.",
-    "C08": " The end-to-end slice includes a matrix of 10 places a filter statement can be written (top level, function, "
-           "uncalled function, block, loop, if, nested function, closure, match arm, filter action) x 23 patterns / actions "
-           "(return, break, continue, reads and writes of enclosing parameters / locals / globals, closures, end filters, "
-           "runtime errors, exit, recursion, packet fields). Spec level: TLC runs the bytecode machine spec/VM.tla by itself "
+           "(13 x 10, at top level and inside a function); $n outside packet processing; loop nests with one label on every "
+           "level. The same executions are replayed in lock step against the machine specification spec/VM.tla by "
+           "spec/VMRun.tla (one TLC state per executed instruction): a stack height that differs from what the instruction's "
+           "meaning gives is reported with the instruction after which it arose. End to end also in filter mode: nine kinds of "
+           "filter programs over 3 000 (12 000) packets must neither overflow nor lose count.",
+    "C08": " In-process families include every string over the characters of the format mini-language up to length 4 (5) as "
+           "format of format / eprint. The end-to-end slice includes a matrix of 10 places a filter statement can be written "
+           "(top level, function, uncalled function, block, loop, if, nested function, closure, match arm, filter action) x 23 "
+           "patterns / actions, and structure-aware random frames cut at every layer boundary through five filter-mode programs "
+           "that print, descend into and write every layer. Spec level: TLC runs the bytecode machine spec/VM.tla by itself "
            "(spec/MC_VM.tla, deadlock checking on) on the code the real compiler emitted for a part of the programs and checks "
-           "NeverStuck (no reachable state in which the real VM would index out of bounds), NoUnderflow, FramesNested, "
-           "EndsBalanced and FetchAligned in every reachable state.",
+           "NeverStuck, NoUnderflow, FramesNested, EndsBalanced and FetchAligned in every reachable state.",
+    "C09": " Every operator is also applied to one stored value on both sides (variable, array slot, argument) for every "
+           "operand of the table: an operator must see values, not where they live.",
+    "C10": " The relation itself: all ordered pairs of 28 keys of every kind through one fixed history (write under k1; observe "
+           "k1 == k2, contains, the value insert replaces, len, get, index) validated by spec/MapEqTrace.tla: the map must agree "
+           "with whatever == says about the pair - this covers pairs whose equality the documentation leaves open.",
     "C11": " Law programs cover round(x, n) for every accepted precision (values with at most n binary places are their own "
-           "rounding; non-finite values are left alone) and sorting of neighbouring integers far from zero.",
-    "C13": " String literals spanning lines include ones that end or start with a line break and ones made of line breaks only.",
+           "rounding; non-finite values are left alone), sorting of neighbouring integers far from zero, and join with "
+           "delimiters that also occur as elements.",
+    "C13": " String, character and byte literals spanning lines include ones that end or start with a line break and ones made "
+           "of line breaks only.",
     "C14": " Forward-jump distance scenarios (if / while exit [thorough: match arm]) just under and over 65535 bytes run in "
            "both tiers. The traced executions are also replayed in lock step against spec/VM.tla (spec/VMRun.tla): every "
            "operand-bearing instruction must have the effect its encoded operand prescribes (ip, opcode, function, digest of "
-           "the top of stack after each instruction).",
+           "the top of stack after each instruction). Opcodes are identified by the names the real code gives them, measured "
+           "together with the widths.",
     "C17": " Two-assignment sequences pair a field of one layer with a structure-selecting field re-assigned the value it "
            "already has (structure unchanged, so every later read stays decided), in both orders.",
     "C19": " Every 4th history reads the same bytes as a stream on standard input (pcap_stream(stdin)) through the binary.",
